@@ -239,17 +239,18 @@ class G:
         self.kinds.append("fc")
         return out.name
 
-    def pool(self, x, kind, k=2, stride=2, padding=PAD_VALID, act=ACT_NONE, kw=None):
+    def pool(self, x, kind, k=2, stride=2, padding=PAD_VALID, act=ACT_NONE, kw=None, stride_w=None):
         X = self.T(x)
         _, h, w, c = X.shape
         kh, kw = k, (kw or k)
-        oh, ow = self.out_hw(h, w, kh, kw, stride, stride, 1, 1, padding)
+        stride_w = stride_w or stride
+        oh, ow = self.out_hw(h, w, kh, kw, stride, stride_w, 1, 1, padding)
         assert oh > 0 and ow > 0
         nm = self.name(kind)
         out = self.act(nm + "_o", (1, oh, ow, c), X.scale[0], X.zp[0])
         code = BO.MAX_POOL_2D if kind == "maxpool" else BO.AVERAGE_POOL_2D
         self.net.add_o(code, [x], [out.name], "Pool2DOptions",
-                       dict(padding=padding, stride_w=stride, stride_h=stride, filter_width=kw, filter_height=kh, fused_activation_function=act), 2)
+                       dict(padding=padding, stride_w=stride_w, stride_h=stride, filter_width=kw, filter_height=kh, fused_activation_function=act), 2)
         self.kinds.append(kind)
         return out.name
 
